@@ -89,11 +89,8 @@ func TestC07Chain(t *testing.T) {
 				rt.Fatalf("mining: %v\nhistory:\n%s", err, join(s.History))
 			}
 			s.NoteBlock(b, offered)
-			if err := s.V.Insert(b); err != nil {
-				rt.Fatalf("validator rejects: %v\nhistory:\n%s", err, join(s.History))
-			}
-			s.ConfirmAll(b)
-			// D: redo the published change logs on the parent state
+			// D: redo the published change logs on the parent state. Done on the validator BEFORE it receives the block: the
+			// parent is still its head, so the view really is the parent state; the executed state is read on the miner.
 			if len(b.ChangeLogs) > 0 {
 				redo := s.V.View(parent.Hash())
 				wire := sim.CloneBlock(b) // the logs as a light client receives them
@@ -107,7 +104,7 @@ func TestC07Chain(t *testing.T) {
 						rt.Fatalf("redo of block %d failed: %v\nlogs: %v\nhistory:\n%s", b.Height(), err, sim.RenderLogs(b.ChangeLogs, true), join(s.History))
 					}
 				}()
-				executed := s.V.View(b.Hash())
+				executed := s.F.View(b.Hash())
 				plain := sim.DumpOptions{NoSuicide: true}
 				diff := sim.DumpState(executed, s.AddrList(), &s.Keys, plain).Diff(sim.DumpState(redo, s.AddrList(), &s.Keys, plain))
 				if diff != "" && knownValuelessSuicide(diff, destroyed, b) {
@@ -119,6 +116,10 @@ func TestC07Chain(t *testing.T) {
 				}
 				redone++
 			}
+			if err := s.V.Insert(b); err != nil {
+				rt.Fatalf("validator rejects: %v\nhistory:\n%s", err, join(s.History))
+			}
+			s.ConfirmAll(b)
 			for _, g := range offered {
 				classes = append(classes, g.Kind)
 			}
